@@ -167,18 +167,19 @@ Lemma unencodable_encode_err known p a a' :
   unencodable p a = true -> subst_arg known a = Some a' -> encode_arg p a' = E1Err.
 Proof.
   destruct a as [|c v|c|i|i]; simpl; try discriminate.
+  - intros H Hs. inversion Hs; subst. destruct p as [c| | |]; try discriminate H. reflexivity.
   - intros H Hs. inversion Hs; subst. apply andb_true_iff in H as [_ H].
     unfold Invocation.encode_arg. destruct (is_iface p); apply negb_true_iff in H.
     + unfold iface_sendable in H. destruct (regname c); [discriminate | reflexivity].
     + now rewrite H.
-  - intros H Hs. unfold Invocation.encode_arg.
+  - intros H Hs. unfold Invocation.encode_arg. unfold nil_representable in H.
     destruct c, (is_iface p); simpl in H; try discriminate; inversion Hs; subst; reflexivity.
 Qed.
 
 Lemma unencodable_subst known p a : unencodable p a = true -> subst_arg known a = Some a.
 Proof.
   destruct a as [|c v|c|i|i]; simpl; try discriminate; try reflexivity.
-  destruct c, (is_iface p); simpl; try discriminate; reflexivity.
+  unfold nil_representable. destruct c, (is_iface p); simpl; try discriminate; reflexivity.
 Qed.
 
 (* An unencodable argument never gets past Run's eager check: Run never goes on
@@ -229,7 +230,7 @@ Proof.
       apply andb_true_iff in Hk as [Hkb Hk]. destruct (IH2 args Hall Hk) as [r Er].
       simpl. rewrite Er.
       destruct b as [|c v|c|i|i]; simpl in Hb; try discriminate; simpl; eauto.
-      + destruct c, (is_iface q); simpl in Hb; try discriminate; simpl; eauto.
+      + unfold nil_representable in Hb. destruct c, (is_iface q); simpl in Hb; try discriminate; simpl; eauto.
       + simpl in Hkb. rewrite andb_true_r in Hkb. rewrite Hkb. eauto. }
     destruct Hs as [r Er]. rewrite Er. simpl.
     now rewrite (unencodable_encode_err known p a a Eu (unencodable_subst known p a Eu)).
@@ -256,11 +257,13 @@ Proof. intro H. unfold Invocation.transport. now rewrite H. Qed.
 Theorem gap_is_nil p a :
   typecheck1 p a = true -> must_arrive p a = true -> ships p a = false ->
   (a = ANil /\ is_iface p = false /\ nilable_p p = true) \/
-  (exists c, a = ATNil c /\ is_pointer c = true).
+  (exists c, a = ATNil c /\ is_pointer c = true /\ (is_iface p = false \/ c = CResult)).
 Proof.
   intros Ht Hm Hs. destruct a as [|c v|c|i|i]; simpl in Hm, Hs; try congruence.
   - left. repeat split; auto.
-  - right. apply andb_true_iff in Hm as [Hm _]. eauto.
+  - right. unfold nil_representable in Hm. apply andb_true_iff in Hm as [Hm Hi].
+    exists c. repeat split; auto.
+    apply orb_true_iff in Hi as [Hi|Hi]; [left; now apply negb_true_iff | right; now destruct c].
 Qed.
 
 (* untyped nil for a nil-able non-interface parameter: accepted by typecheck (and
@@ -275,12 +278,6 @@ Theorem nil_pointer_refuted :
   exists ps args, typecheck ps args = true /\ forallb2 must_arrive ps args = true /\
                   transport [] [] ps args = ORunPanic.
 Proof. exists [PC CPtr], [ATNil CPtr]. repeat split. Qed.
-
-(* typed nil pointer inside an interface parameter: error *)
-Theorem nil_pointer_in_interface_refuted :
-  exists ps args, typecheck ps args = true /\ forallb2 must_arrive ps args = true /\
-                  transport [] [] ps args = ORunErr.
-Proof. exists [PShape], [ATNil CPsq]. repeat split. Qed.
 
 (* nil *Result: addInvocation dereferences it *)
 Theorem nil_result_refuted :
